@@ -52,6 +52,25 @@ static void scn_write(int codec, obs_t* o) {
 }
 /* S2b: wide table (100 REQUIRED INT32 columns, 3 rows): the serialised footer passes 4 KiB and 8 KiB, so the Thrift output buffer grows while the
  * footer is being written; the first column name is padded by `pad` characters so that each kind of append crosses the growth point */
+/* one page whose parts outgrow the initial capacity of the writer's buffers: 40 000 rows of two OPTIONAL columns with an irregular null pattern (the RLE/bit-packed
+ * definition levels of the page exceed 4 KiB, the values 100 KiB) written in one or in 40 batches.  Every growth of a level, value, page or compression buffer is an
+ * allocation request of its own; a request that fails must be reported, or absorbed with a byte-identical file. */
+#define BIGN 40000
+static void scn_write_bigpage(int codec, int nbatches, obs_t* o) {
+    static int32_t v32[BIGN]; static int64_t v64[BIGN]; static int16_t d0[BIGN], d1[BIGN]; static int inited; static int64_t nn0, nn1;
+    if (!inited) { uint32_t x = 0x9e3779b9u; nn0 = nn1 = 0; for (int r = 0; r < BIGN; r++) { x = x * 1664525u + 1013904223u; d0[r] = (int16_t)((x >> 13) & 1); d1[r] = (int16_t)(((x >> 17) & 3) != 0); if (d0[r]) v32[nn0++] = (int32_t)(x ^ (uint32_t)r); if (d1[r]) v64[nn1++] = (int64_t)x * 0x100000001LL - r; } inited = 1; }
+    carquet_error_t err = CARQUET_ERROR_INIT; carquet_schema_t* s = carquet_schema_create(&err); if (!s) { ERR(o, "schema_create"); return; }
+    if (carquet_schema_add_column(s, "a", CARQUET_PHYSICAL_INT32, NULL, CARQUET_REPETITION_OPTIONAL, 0) != CARQUET_OK || carquet_schema_add_column(s, "b", CARQUET_PHYSICAL_INT64, NULL, CARQUET_REPETITION_OPTIONAL, 0) != CARQUET_OK) { ERR(o, "schema_add_column"); carquet_schema_free(s); return; }
+    char* mem = NULL; size_t mlen = 0; FILE* f = open_memstream(&mem, &mlen); carquet_writer_options_t wo; carquet_writer_options_init(&wo); wo.compression = (carquet_compression_t)codec;
+    carquet_writer_t* w = carquet_writer_create_file(f, s, &wo, &err);
+    if (!w) { ERR(o, "writer_create_file"); fclose(f); free(mem); carquet_schema_free(s); return; }
+    carquet_status_t st = CARQUET_OK; int per = BIGN / nbatches; int64_t o0 = 0, o1 = 0;
+    for (int b = 0; b < nbatches && st == CARQUET_OK; b++) { st = carquet_writer_write_batch(w, 0, v32 + o0, per, d0 + b * per, NULL); for (int r = b * per; r < (b + 1) * per; r++) o0 += d0[r]; }
+    for (int b = 0; b < nbatches && st == CARQUET_OK; b++) { st = carquet_writer_write_batch(w, 1, v64 + o1, per, d1 + b * per, NULL); for (int r = b * per; r < (b + 1) * per; r++) o1 += d1[r]; }
+    if (st != CARQUET_OK) { ERR(o, "write_batch"); carquet_writer_abort(w); } else { st = carquet_writer_close(w); if (st != CARQUET_OK) ERR(o, "close"); }
+    fclose(f); if (!o->err_seen) o->hash = mc_hash(mem, mlen, 7) ^ (uint64_t)mlen; free(mem); carquet_schema_free(s);
+}
+
 static void scn_write_wide(int pad, obs_t* o) {
     carquet_error_t err = CARQUET_ERROR_INIT; carquet_schema_t* s = carquet_schema_create(&err); if (!s) { ERR(o, "schema_create"); return; }
     char nm[64];
@@ -124,13 +143,13 @@ static void scn_batch(int mode, obs_t* o) {
     o->hash = h; carquet_reader_close(rd);
 }
 
-enum { K_SCHEMA, K_WRITE, K_READ, K_BATCH, K_DICTREAD, K_WIDE, K_DICTBATCH, K_PLAINBA };
+enum { K_SCHEMA, K_WRITE, K_READ, K_BATCH, K_DICTREAD, K_WIDE, K_DICTBATCH, K_PLAINBA, K_BIGPAGE };
 typedef struct { int kind, a, b; const char* name; int errnull, bigread; } scn_t;
 static int g_dict_pt[2] = { PT_BYTE_ARRAY, PT_INT64 }, g_dict_tl[2] = { 0, 0 };
 static void run_scenario(const scn_t* s, obs_t* o) {
     memset(o, 0, sizeof *o); int pt[3], tl[3]; for (int c = 0; c < 3; c++) { pt[c] = g_hist.cols[c].ptype; tl[c] = g_hist.cols[c].tlen; }
     g_errnull = s->errnull; g_bigread = s->bigread; mcf_on();
-    switch (s->kind) { case K_SCHEMA: scn_schema(o); break; case K_WRITE: scn_write(s->a, o); break; case K_READ: scn_read(s->a, 3, pt, tl, o); break; case K_BATCH: scn_batch(s->a, o); break; case K_WIDE: scn_write_wide(s->a, o); break; case K_DICTBATCH: scn_batch(s->a, o); break; default: scn_read(s->a, 2, g_dict_pt, g_dict_tl, o); break; }
+    switch (s->kind) { case K_SCHEMA: scn_schema(o); break; case K_WRITE: scn_write(s->a, o); break; case K_READ: scn_read(s->a, 3, pt, tl, o); break; case K_BATCH: scn_batch(s->a, o); break; case K_WIDE: scn_write_wide(s->a, o); break; case K_BIGPAGE: scn_write_bigpage(s->a, s->b, o); break; case K_DICTBATCH: scn_batch(s->a, o); break; default: scn_read(s->a, 2, g_dict_pt, g_dict_tl, o); break; }
     mcf_off();
 }
 static void prepare_input(const scn_t* s) {
@@ -156,7 +175,7 @@ static void judge(const scn_t* s, long k1, long k2, const obs_t* base, long base
 }
 
 static void enumerate(void) {
-    mc_rule("C19: scenarios = schema build (70 columns), write of a 3-row-group, 3-column nullable table per codec (5) and of a 9-row-group table, write of a 100-column table whose footer grows the Thrift output buffer twice (16 name paddings so that every kind of append crosses the growth point), open + full column read per I/O mode (3) x codec (5), batch read per I/O mode x 2 codecs, dictionary-encoded file read through the column reader and through the batch reader per I/O mode x 2 codecs. "
+    mc_rule("C19: scenarios = schema build (70 columns), write of a 3-row-group, 3-column nullable table per codec (5) and of a 9-row-group table, write of one page of 40 000 rows of two OPTIONAL columns with irregular nulls per codec (5), in one and in 40 batches (levels, values, page and compression buffers all outgrow their initial capacity), write of a 100-column table whose footer grows the Thrift output buffer twice (16 name paddings so that every kind of append crosses the growth point), open + full column read per I/O mode (3) x codec (5), batch read per I/O mode x 2 codecs, dictionary-encoded file read through the column reader and through the batch reader per I/O mode x 2 codecs. "
             "K = allocation requests the library (and zlib/zstd on its behalf) makes in the fault-free run; every k in 1..K fails once (quick and thorough); all pairs k1<k2 for the scenarios with K <= 100 (quick) / all scenarios (thorough). Oracle: no crash / ASan report (child process), "
             "all handles are then closed/freed, the number of live library allocations afterwards does not exceed the fault-free steady state, and either some call reported an error or the result (file bytes / values read) is identical to the fault-free run. "
             "One mc case per (scenario, k); evaluations = fault points. Non-trivial = every fault point that was reached; distinct by (scenario, k1, k2).");
@@ -166,6 +185,7 @@ static void enumerate(void) {
     for (int c = 0; c < 5; c++) { snprintf(names[ns], 48, "write.%s", CN[c]); S[ns] = (scn_t){ K_WRITE, CD[c], 0, names[ns] }; ns++; }
     snprintf(names[ns], 48, "write.nine-row-groups.uncompressed"); S[ns] = (scn_t){ K_WRITE, 100, 0, names[ns] }; ns++;
     for (int pad = 0; pad < 16; pad++) { snprintf(names[ns], 48, "write.100-columns.name-padding-%d", pad); S[ns] = (scn_t){ K_WIDE, pad, 0, names[ns] }; ns++; }
+    for (int c = 0; c < 5; c++) for (int nb = 1; nb <= 40; nb += 39) { snprintf(names[ns], 48, "write.large-page.%s.%d-batch", CN[c], nb); S[ns] = (scn_t){ K_BIGPAGE, CD[c], nb, names[ns] }; ns++; }
     for (int m = 0; m < 3; m++) for (int c = 0; c < 5; c++) { snprintf(names[ns], 48, "read.%s.%s", MN[m], CN[c]); S[ns] = (scn_t){ K_READ, m, CD[c], names[ns] }; ns++; }
     for (int m = 0; m < 3; m++) for (int c = 0; c < 5; c += 4) { snprintf(names[ns], 48, "batch.%s.%s", MN[m], CN[c]); S[ns] = (scn_t){ K_BATCH, m, CD[c], names[ns] }; ns++; }
     for (int m = 0; m < 3; m++) for (int c = 0; c < 2; c++) { snprintf(names[ns], 48, "dict-read.%s.%s", MN[m], c ? "snappy" : "uncompressed"); S[ns] = (scn_t){ K_DICTREAD, m, c ? CODEC_SNAPPY : CODEC_NONE, names[ns] }; ns++; }
